@@ -654,6 +654,30 @@ def c10(tier, rng):
             for i in ok:
                 s.poll(i)                       # R accepted, one refused
             out.append(case("oversized-R%d-q%d" % (R, q), s.script(), ["R%d" % R, "oversized"]))
+    # the same Context connected again: the quota is that of the new CONNACK, minus what is re-sent on resumption
+    for R1, R2 in ((2, 2), (3, 3), (3, 2), (2, 3), (1, 1), (3, None), (None, 2)):
+        for resumed in (True, False):
+            s = S(connack_props=[(33, R1)] if R1 else [], connect_opts="sei=1000")
+            a, b = s.pub(q=1, payload=b"A"), s.pub(q=2, payload=b"B")
+            s.poll(a), s.poll(b)
+            if (R1 or 9) >= 3:
+                c3 = s.pub(q=2, payload=b"C")
+                s.poll(c3), s.deliver(M.pubrec(s.ops[c3]["pid"])), s.poll(c3)      # PUBREL sent, PUBCOMP outstanding
+            s.ev("markdisc %d" % (10 if resumed else 5000)), s.ev("reconnect"), s.ev("connect sei=1000")
+            s.deliver(M.connack(1 if resumed else 0, 0, [(33, R2)] if R2 else [])), s.ev("run")
+            more = [s.pub(q=1, payload=b"n%d" % k) for k in range((R2 or 4) + 1)]
+            for i in more:
+                s.poll(i)
+            for i in more:
+                s.poll(i)
+            if resumed:
+                s.deliver(M.puback(s.ops[a]["pid"])), s.poll(a)
+                late = [s.pub(q=1, payload=b"late"), s.pub(q=1, payload=b"late2")]
+                for i in late:
+                    s.poll(i)
+                for i in late:
+                    s.poll(i)
+            out.append(case("reconnect-R%s-R%s-%s" % (R1, R2, "resumed" if resumed else "expired"), s.script(), ["reconnect", "R%s" % R2]))
     # default R = 65535: no refusal after many publishes
     s = S()
     s.ev("spin 300 1000 pub1 0")
